@@ -46,3 +46,74 @@ package nsresolver
 //@ trace helper ResolveType := [is($1,*ast.Nullable)] $0.ResolveType($1.(*ast.Nullable).Expr) || [!(is($1,*ast.Nullable)) && is($1,*ast.Name)] $0.ResolveName($1, "") || [!(is($1,*ast.Nullable)) && !(is($1,*ast.Name)) && is($1,*ast.NameRelative)] $0.ResolveName($1, "") || [!(is($1,*ast.Nullable)) && !(is($1,*ast.Name)) && !(is($1,*ast.NameRelative)) && is($1,*ast.NameFullyQualified)] $0.ResolveName($1, "") || [!(is($1,*ast.Nullable)) && !(is($1,*ast.Name)) && !(is($1,*ast.NameRelative)) && !(is($1,*ast.NameFullyQualified))] 
 //@ trace helper LeaveNode := [is($1,*ast.StmtNamespace) && ($1.(*ast.StmtNamespace).Stmts != nil)] NewNamespace(""); store &$0.Namespace := result(NewNamespace("")) || [is($1,*ast.StmtNamespace) && !(($1.(*ast.StmtNamespace).Stmts != nil))]  || [!(is($1,*ast.StmtNamespace))] 
 //@ trace helper EnterNode := [$0.goDeep] $1.Accept($0) => true || [!($0.goDeep)] $1.Accept($0); store &$0.goDeep := true => false
+
+// ---------------------------------------------------------------------------------------------
+// C14: the alias tables (Namespace) against PHP's rules as the property states them: "use and
+// group-use aliases by kind with class and function aliases case-insensitive and constant aliases
+// case-sensitive"; a qualified name is resolved through the class aliases by its first segment.
+//   kind tables: ""  (classes),  "function",  "const"; kinds are compared case-insensitively.
+
+//@ pred aliastables(ns) := ns != nil && ns.Aliases != nil && has(ns.Aliases, "") && has(ns.Aliases, "const") && has(ns.Aliases, "function") && ns.Aliases[""] != nil && ns.Aliases["const"] != nil && ns.Aliases["function"] != nil && ns.Aliases[""] != ns.Aliases["const"] && ns.Aliases[""] != ns.Aliases["function"] && ns.Aliases["const"] != ns.Aliases["function"]
+//@ pred usekind(k) := k == "" || k == "const" || k == "function"
+
+//@ func NewNamespace
+//@   ensures result != nil && fresh(result) && result.Namespace == NSName && aliastables(result)
+//@   ensures forall k :: !has(result.Aliases[""], k) && !has(result.Aliases["const"], k) && !has(result.Aliases["function"], k)
+//@   modifies nothing
+//@   props C14
+
+//@ func (*Namespace).AddAlias
+//@   requires aliastables(ns) && usekind(lower(aliasType))
+//@   ensures lower(aliasType) == "const" ==> (has(ns.Aliases["const"], alias) && ns.Aliases["const"][alias] == aliasName)
+//@   ensures lower(aliasType) != "const" ==> (has(ns.Aliases[lower(aliasType)], lower(alias)) && ns.Aliases[lower(aliasType)][lower(alias)] == aliasName)
+//@   ensures aliastables(ns)
+//@   props C14
+
+// The first segment of a qualified name is looked up in the class aliases, case-insensitively,
+// whatever the position; an unqualified name in the table of its own kind, case-insensitively
+// except for constants.
+//@ func (*Namespace).ResolveAlias
+//@   requires aliastables(ns) && usekind(lower(aliasType)) && typeis(nameNode, "pkg/ast.Name") && as(nameNode, "pkg/ast.Name") != nil && len(as(nameNode, "pkg/ast.Name").Parts) >= 1 && typeis(as(nameNode, "pkg/ast.Name").Parts[0], "pkg/ast.NamePart") && as(as(nameNode, "pkg/ast.Name").Parts[0], "pkg/ast.NamePart") != nil
+//@   ensures len(as(nameNode, "pkg/ast.Name").Parts) > 1 ==> ((result1 == nil) <==> has(ns.Aliases[""], lower(bstr(as(as(nameNode, "pkg/ast.Name").Parts[0], "pkg/ast.NamePart").Value))))
+//@   ensures (len(as(nameNode, "pkg/ast.Name").Parts) > 1 && result1 == nil) ==> result0 == ns.Aliases[""][lower(bstr(as(as(nameNode, "pkg/ast.Name").Parts[0], "pkg/ast.NamePart").Value))]
+//@   ensures (len(as(nameNode, "pkg/ast.Name").Parts) == 1 && lower(aliasType) != "const") ==> ((result1 == nil) <==> has(ns.Aliases[lower(aliasType)], lower(bstr(as(as(nameNode, "pkg/ast.Name").Parts[0], "pkg/ast.NamePart").Value))))
+//@   ensures (len(as(nameNode, "pkg/ast.Name").Parts) == 1 && lower(aliasType) != "const" && result1 == nil) ==> result0 == ns.Aliases[lower(aliasType)][lower(bstr(as(as(nameNode, "pkg/ast.Name").Parts[0], "pkg/ast.NamePart").Value))]
+//@   ensures (len(as(nameNode, "pkg/ast.Name").Parts) == 1 && lower(aliasType) == "const") ==> ((result1 == nil) <==> has(ns.Aliases["const"], bstr(as(as(nameNode, "pkg/ast.Name").Parts[0], "pkg/ast.NamePart").Value)))
+//@   ensures (len(as(nameNode, "pkg/ast.Name").Parts) == 1 && lower(aliasType) == "const" && result1 == nil) ==> result0 == ns.Aliases["const"][bstr(as(as(nameNode, "pkg/ast.Name").Parts[0], "pkg/ast.NamePart").Value)]
+//@   modifies nothing
+//@   props C14
+//@ trace helper concatNameParts := [] loop($0){loop($0){[(loopvar(str) == "")] store next(str) := convert<string>($0[idx][idx].(*ast.NamePart).Value) | [!((loopvar(str) == ""))] store next(str) := ((loopvar(str) + "\\") + convert<string>($0[idx][idx].(*ast.NamePart).Value))}; store next(str) := after-loop(str)} => after-loop(str)
+
+// join(parts) is what concatNameParts computes for one list of name parts (its body is pinned by
+// the exact-trace contract above: segment values joined by "\"); towards its callers it is an
+// uninterpreted function of the list window.
+//@ func concatNameParts
+//@   assume-ensures len(parts) == 1 ==> result == uf_join(arr(parts[0]), off(parts[0]), len(parts[0]))
+//@   trusted nested range loops with a string accumulator: body pinned by an exact-trace contract, result abstracted as uf_join
+
+// ResolveName: PHP's rules as the property states them. In these clauses
+//   P   = the Parts of the name,   first = the text of P[0],   ns = the current namespace
+//   prefix(x) = x when ns is empty, ns·"\"·x otherwise
+//@ pred isspecialconst(s) := s == "true" || s == "false" || s == "null"
+//@ pred isspecialclass(s) := s == "self" || s == "static" || s == "parent" || s == "int" || s == "float" || s == "bool" || s == "string" || s == "void" || s == "iterable" || s == "object"
+//@ pred namewf(v, tn) := typeis(v, tn)
+//@ func (*Namespace).ResolveName
+//@   requires aliastables(ns) && usekind(lower(aliasType)) && aliasType == lower(aliasType)
+//@   requires typeis(nameNode, "pkg/ast.NameFullyQualified") ==> as(nameNode, "pkg/ast.NameFullyQualified") != nil
+//@   requires typeis(nameNode, "pkg/ast.NameRelative") ==> as(nameNode, "pkg/ast.NameRelative") != nil
+//@   requires typeis(nameNode, "pkg/ast.Name") ==> (as(nameNode, "pkg/ast.Name") != nil && len(as(nameNode, "pkg/ast.Name").Parts) >= 1 && typeis(as(nameNode, "pkg/ast.Name").Parts[0], "pkg/ast.NamePart") && as(as(nameNode, "pkg/ast.Name").Parts[0], "pkg/ast.NamePart") != nil)
+//@   ensures typeis(nameNode, "pkg/ast.NameFullyQualified") ==> (result1 == nil && result0 == uf_join(arr(as(nameNode, "pkg/ast.NameFullyQualified").Parts), off(as(nameNode, "pkg/ast.NameFullyQualified").Parts), len(as(nameNode, "pkg/ast.NameFullyQualified").Parts)))
+//@   ensures (typeis(nameNode, "pkg/ast.NameRelative") && ns.Namespace == "") ==> (result1 == nil && result0 == uf_join(arr(as(nameNode, "pkg/ast.NameRelative").Parts), off(as(nameNode, "pkg/ast.NameRelative").Parts), len(as(nameNode, "pkg/ast.NameRelative").Parts)))
+//@   ensures (typeis(nameNode, "pkg/ast.NameRelative") && ns.Namespace != "") ==> (result1 == nil && result0 == cat(cat(ns.Namespace, "\\"), uf_join(arr(as(nameNode, "pkg/ast.NameRelative").Parts), off(as(nameNode, "pkg/ast.NameRelative").Parts), len(as(nameNode, "pkg/ast.NameRelative").Parts))))
+//@   ensures (typeis(nameNode, "pkg/ast.Name") && aliasType == "const" && len(as(nameNode, "pkg/ast.Name").Parts) == 1 && isspecialconst(lower(bstr(as(as(nameNode, "pkg/ast.Name").Parts[0], "pkg/ast.NamePart").Value)))) ==> (result1 == nil && result0 == lower(bstr(as(as(nameNode, "pkg/ast.Name").Parts[0], "pkg/ast.NamePart").Value)))
+//@   ensures (typeis(nameNode, "pkg/ast.Name") && aliasType == "" && len(as(nameNode, "pkg/ast.Name").Parts) == 1 && isspecialclass(lower(bstr(as(as(nameNode, "pkg/ast.Name").Parts[0], "pkg/ast.NamePart").Value)))) ==> (result1 == nil && result0 == lower(bstr(as(as(nameNode, "pkg/ast.Name").Parts[0], "pkg/ast.NamePart").Value)))
+//@   ensures (typeis(nameNode, "pkg/ast.Name") && len(as(nameNode, "pkg/ast.Name").Parts) > 1 && has(ns.Aliases[""], lower(bstr(as(as(nameNode, "pkg/ast.Name").Parts[0], "pkg/ast.NamePart").Value)))) ==> (result1 == nil && result0 == cat(cat(ns.Aliases[""][lower(bstr(as(as(nameNode, "pkg/ast.Name").Parts[0], "pkg/ast.NamePart").Value))], "\\"), uf_join(arr(as(nameNode, "pkg/ast.Name").Parts), off(as(nameNode, "pkg/ast.Name").Parts) + 1, len(as(nameNode, "pkg/ast.Name").Parts) - 1)))
+//@   ensures (typeis(nameNode, "pkg/ast.Name") && len(as(nameNode, "pkg/ast.Name").Parts) > 1 && !has(ns.Aliases[""], lower(bstr(as(as(nameNode, "pkg/ast.Name").Parts[0], "pkg/ast.NamePart").Value))) && ns.Namespace != "") ==> (result1 == nil && result0 == cat(cat(ns.Namespace, "\\"), uf_join(arr(as(nameNode, "pkg/ast.Name").Parts), off(as(nameNode, "pkg/ast.Name").Parts), len(as(nameNode, "pkg/ast.Name").Parts))))
+//@   ensures (typeis(nameNode, "pkg/ast.Name") && len(as(nameNode, "pkg/ast.Name").Parts) > 1 && !has(ns.Aliases[""], lower(bstr(as(as(nameNode, "pkg/ast.Name").Parts[0], "pkg/ast.NamePart").Value))) && ns.Namespace == "") ==> (result1 == nil && result0 == uf_join(arr(as(nameNode, "pkg/ast.Name").Parts), off(as(nameNode, "pkg/ast.Name").Parts), len(as(nameNode, "pkg/ast.Name").Parts)))
+//@   ensures (typeis(nameNode, "pkg/ast.Name") && len(as(nameNode, "pkg/ast.Name").Parts) == 1 && aliasType == "function" && has(ns.Aliases["function"], lower(bstr(as(as(nameNode, "pkg/ast.Name").Parts[0], "pkg/ast.NamePart").Value)))) ==> (result1 == nil && result0 == ns.Aliases["function"][lower(bstr(as(as(nameNode, "pkg/ast.Name").Parts[0], "pkg/ast.NamePart").Value))])
+//@   ensures (typeis(nameNode, "pkg/ast.Name") && len(as(nameNode, "pkg/ast.Name").Parts) == 1 && aliasType == "const" && !isspecialconst(lower(bstr(as(as(nameNode, "pkg/ast.Name").Parts[0], "pkg/ast.NamePart").Value))) && has(ns.Aliases["const"], bstr(as(as(nameNode, "pkg/ast.Name").Parts[0], "pkg/ast.NamePart").Value))) ==> (result1 == nil && result0 == ns.Aliases["const"][bstr(as(as(nameNode, "pkg/ast.Name").Parts[0], "pkg/ast.NamePart").Value)])
+//@   ensures (typeis(nameNode, "pkg/ast.Name") && len(as(nameNode, "pkg/ast.Name").Parts) == 1 && aliasType == "" && !isspecialclass(lower(bstr(as(as(nameNode, "pkg/ast.Name").Parts[0], "pkg/ast.NamePart").Value))) && has(ns.Aliases[""], lower(bstr(as(as(nameNode, "pkg/ast.Name").Parts[0], "pkg/ast.NamePart").Value)))) ==> (result1 == nil && result0 == ns.Aliases[""][lower(bstr(as(as(nameNode, "pkg/ast.Name").Parts[0], "pkg/ast.NamePart").Value))])
+//@   ensures (typeis(nameNode, "pkg/ast.Name") && len(as(nameNode, "pkg/ast.Name").Parts) == 1 && aliasType == "const" && !isspecialconst(lower(bstr(as(as(nameNode, "pkg/ast.Name").Parts[0], "pkg/ast.NamePart").Value))) && !has(ns.Aliases["const"], bstr(as(as(nameNode, "pkg/ast.Name").Parts[0], "pkg/ast.NamePart").Value)) && ns.Namespace != "") ==> (result1 == nil && result0 == cat(cat(ns.Namespace, "\\"), uf_join(arr(as(nameNode, "pkg/ast.Name").Parts), off(as(nameNode, "pkg/ast.Name").Parts), len(as(nameNode, "pkg/ast.Name").Parts))))
+//@   ensures (!typeis(nameNode, "pkg/ast.Name") && !typeis(nameNode, "pkg/ast.NameRelative") && !typeis(nameNode, "pkg/ast.NameFullyQualified")) ==> result1 != nil
+//@   modifies nothing
+//@   props C14
